@@ -1,5 +1,5 @@
 ---- MODULE MC_tiny ----
 EXTENDS MCOFWire
-TheCases == Uniform({"hello", "flow_mod", "packet_out", "srep_flow", "actions"}) \cup Outputs
+TheCases == Uniform({"hello", "flow_mod", "packet_out", "srep_flow", "actions"}) \cup Outputs(0)
 TheAround == AroundBoth
 ====
